@@ -9,7 +9,7 @@
                             another (or no) value after executing the implementation's statements
                      tag 21 internal: guard true but [translate] differs from the reference
                             (contradicts translate_sound; can only be a bug of this file)
-     guards          201 g_flat, 202 g_once, 203 g_cond_fresh, 204 g_cover, 205 g_no_mod are false
+     guards          201 g_flat, 202 g_once, 203 g_cond_fresh, 204 g_cover are false
      inconclusive    1001 no right-hand side was ever compared at a defined point,
                      1011 the reference semantics was undefined at every sample point
    ADVAN/TRANS streams ([verdict_adv]): see below. *)
@@ -59,21 +59,12 @@ Definition has (k : nat) (l : list nat) : bool := existsb (Nat.eqb k) l.
 
 Definition corr_codes (c : case) (m : list stmt) : list nat :=
   flat_map (fun e => lockstep (env_of e) m (c_impl c)) (c_envs c).
-Definition corr_bad (codes : list nat) : bool := has 9 codes || has 1 codes || has 3 codes.
 
-(* The implementation is compared with the faithful model [read_code prog]; if that fails but it
-   agrees with [translate prog] — the statements built with the SPECIFICATION's meaning of every
-   intrinsic (MOD = Fortran remainder) — the function table has been repaired in /repo: tag 305
-   (information), no correspondence tag. *)
 Definition check_corr (c : case) : list nat :=
-  let c1 := corr_codes c (read_code (c_prog c)) in
-  let c2 := corr_codes c (translate (c_prog c)) in
-  let repaired := corr_bad c1 && negb (corr_bad c2) in
-  let codes := if repaired then c2 else c1 in
+  let codes := corr_codes c (read_code (c_prog c)) in
   tag (negb (has 9 codes)) 2 ++
   tag (negb (has 1 codes || has 3 codes)) 1 ++
-  tag (has 0 codes || match read_code (c_prog c) with [] => true | _ => false end) 1001 ++
-  tag (negb repaired) 305.
+  tag (has 0 codes || match read_code (c_prog c) with [] => true | _ => false end) 1001.
 
 (* the property on the implementation's own statements *)
 Definition oracle_at (p : body) (impl : list stmt) (m : list (id * Q)) : nat :=
@@ -106,13 +97,12 @@ Definition check_oracle (c : case) : list nat :=
   let ms := map (model_at (c_prog c)) (c_envs c) in
   tag (negb (has 1 os)) 11 ++
   tag (has 0 os) 1011 ++
-  tag (negb (guard_code (c_prog c) && g_no_mod (c_prog c) && has 1 ms)) 21 ++
+  tag (negb (guard_code (c_prog c) && has 1 ms)) 21 ++
   (* information: the faithful model deviates from the reference on this input *)
   tag (negb (has 1 ms)) 301.
 
 Definition guard_tags (p : body) : list nat :=
-  tag (g_flat p) 201 ++ tag (g_once p) 202 ++ tag (g_cond_fresh p) 203 ++ tag (g_cover p) 204 ++
-  tag (g_no_mod p) 205.
+  tag (g_flat p) 201 ++ tag (g_once p) 202 ++ tag (g_cond_fresh p) 203 ++ tag (g_cover p) 204.
 
 Definition verdict (c : case) : list nat :=
   check_corr c ++ check_oracle c ++ guard_tags (c_prog c).
